@@ -51,6 +51,109 @@ fn node_refs(n: &Node, row: i32, col: i32, out: &mut Vec<C>, absorbing: &mut boo
     }
 }
 
+#[derive(Clone, Debug)]
+enum Step {
+    Enter(u32, i32, i32, String),
+    /// set_user_array_formula(sheet,row,col,width,height,text)
+    Cse(u32, i32, i32, i32, i32, String),
+    Eval,
+}
+fn steps_json(st: &[Step]) -> serde_json::Value {
+    json!(st.iter().map(|s| match s {
+        Step::Enter(s, r, c, t) => json!([s, r, c, t]),
+        Step::Cse(s, r, c, w, h, t) => json!([s, r, c, format!("CSE {}x{} {}", w, h, t)]),
+        Step::Eval => json!("evaluate"),
+    }).collect::<Vec<_>>())
+}
+fn simple(inputs: &[gen::Input]) -> Vec<Step> {
+    let mut sorted = inputs.to_vec(); sorted.sort();
+    let mut v: Vec<Step> = sorted.into_iter().map(|(s, r, c, t)| Step::Enter(s, r, c, t)).collect();
+    v.push(Step::Eval);
+    v
+}
+fn colname(c: i32) -> String { ironcalc_base::expressions::utils::number_to_column(c).unwrap() }
+
+/// full-column / full-row ranges as aggregate arguments, same-sheet and cross-sheet, the referenced
+/// sheet's used area larger and smaller than the formula sheet's
+fn gen_fullrange(rng: &mut Rng) -> Vec<Step> {
+    let mut v: Vec<Step> = vec![];
+    let cross = rng.chance(2, 3);
+    let (fs, ds): (u32, u32) = if !cross { (0, 0) } else if rng.chance(1, 2) { (0, 1) } else { (1, 0) };
+    let vals = ["1", "10", "100", "2.5", "-4", "abc", "TRUE", "7", "0", "1000", "", "5"];
+    // the data: a column block A1..B{n} and a row block in rows 1..3 up to column m
+    let n = *rng.pick(&[3i32, 3, 6, 14]);
+    let mcol = *rng.pick(&[2i32, 3, 9]);
+    for r in 1..=n { for c in 1..=2 { let t = *rng.pick(&vals); if !t.is_empty() && (c == 1 || rng.chance(1, 2)) { v.push(Step::Enter(ds, r, c, t.to_string())); } } }
+    for r in 1..=3 { for c in 3..=mcol { let t = *rng.pick(&vals); if !t.is_empty() && rng.chance(2, 3) { v.push(Step::Enter(ds, r, c, t.to_string())); } } }
+    // the formulas: cross-sheet in row 1 of the formula sheet (so that its used area is ONE row), same-sheet away from the ranges
+    let (fr, fc0) = if cross { (1, 1) } else { (n.max(3) + 2, mcol.max(2) + 2) };
+    let pre = if cross { format!("Sheet{}!", ds + 1) } else { String::new() };
+    let ranges = ["A:A", "1:1", "A:B", "2:3", "B:B", "1:2"];
+    let fns = ["SUM", "COUNT", "COUNTA", "MIN", "MAX", "AVERAGE"];
+    let k = rng.range(4, 7) as i32;
+    for i in 0..k {
+        let f = *rng.pick(&fns); let r = *rng.pick(&ranges);
+        let text = match rng.below(5) { 0 => format!("={f}({pre}{r},1)"), 1 => format!("={f}({pre}{r})+{f}({pre}A:A)"), _ => format!("={f}({pre}{r})") };
+        v.push(Step::Enter(fs, fr, fc0 + i, text));
+    }
+    // sometimes the formula sheet is the LARGER one
+    if cross && rng.chance(1, 3) { v.push(Step::Enter(fs, 30, 12, "9".to_string())); }
+    v.push(Step::Eval);
+    if rng.chance(1, 2) {
+        // grow or shrink the data and evaluate again
+        v.push(Step::Enter(ds, n + rng.range(1, 4) as i32, 1, "1000".to_string()));
+        v.push(Step::Enter(ds, 1, mcol + rng.range(1, 3) as i32, "500".to_string()));
+        v.push(Step::Eval);
+    }
+    v
+}
+
+/// build, evaluate, CHANGE inputs, evaluate again: CSE and dynamic arrays over a block of literals, whose
+/// non-anchor cells are read by plain formulas placed BEFORE and AFTER them in sheet order
+fn gen_multistep(rng: &mut Rng) -> Vec<Step> {
+    let mut v: Vec<Step> = vec![];
+    let s = 0u32;
+    let lit = |rng: &mut Rng| -> String { rng.pick(&["1", "2", "3", "4", "5", "7", "10", "-2", "0.5", "20"]).to_string() };
+    for r in 1..=3 { for c in 1..=2 { v.push(Step::Enter(s, r, c, lit(rng))); } }   // A1:B3
+    // arrays at rows 6.. (columns C.. and G..); readers in rows 1-4 (columns D..) = before, rows 12.. = after
+    let mut areas: Vec<(i32, i32, i32, i32)> = vec![]; // row, col, w, h
+    let n_arr = rng.range(1, 2);
+    for k in 0..n_arr {
+        let (ar, ac) = (6, 3 + 4 * k as i32);
+        let cse = rng.chance(2, 3);
+        let (w, h, text): (i32, i32, &str) = *rng.pick(&[
+            (2, 2, "=A1:B2*10"), (1, 3, "=A1:A3*B1"), (2, 2, "={1,2;3,4}*A1"), (2, 2, "=A1:B2+B3"), (2, 1, "=A1:B1&\"x\""),
+            (1, 3, "=IF(A1:A3>2,A1:A3,0)"), (2, 2, "=ABS(A1:B2)-A3"), (2, 3, "=A1:B3"), (2, 2, "=A1*2"), (1, 2, "=A1:A2/B1:B2"), (2, 2, "=-A2:B3"),
+        ]);
+        if cse { v.push(Step::Cse(s, ar, ac, w, h, text.to_string())); } else { v.push(Step::Enter(s, ar, ac, text.to_string())); }
+        areas.push((ar, ac, w, h));
+    }
+    let mut before_c = 4; let mut after_c = 1;
+    for &(ar, ac, w, h) in &areas {
+        let nread = rng.range(2, 4);
+        for _ in 0..nread {
+            // a non-anchor cell of the area (the anchor itself now and then)
+            let (dr, dc) = loop { let p = (rng.range(0, h as i64 - 1) as i32, rng.range(0, w as i64 - 1) as i32); if p != (0, 0) || rng.chance(1, 6) || (w == 1 && h == 1) { break p; } };
+            let cell = format!("{}{}", colname(ac + dc), ar + dr);
+            let area = format!("{}{}:{}{}", colname(ac), ar, colname(ac + w - 1), ar + h - 1);
+            let t = match rng.below(8) {
+                0 | 1 => format!("={cell}"), 2 => format!("=SUM({cell}:{cell})"), 3 => format!("={cell}&\"|\""), 4 => format!("=SUM({area})"),
+                5 => format!("=COUNT({area})"), 6 => format!("={cell}+1"), _ => format!("=IFERROR({cell}*2,-1)"),
+            };
+            if rng.chance(1, 2) { v.push(Step::Enter(s, rng.range(1, 4) as i32, before_c, t)); before_c += 1; }
+            else { v.push(Step::Enter(s, 12 + rng.range(0, 2) as i32, after_c, t)); after_c += 1; }
+        }
+    }
+    v.push(Step::Eval);
+    let rounds = rng.range(1, 2);
+    for _ in 0..rounds {
+        let nch = rng.range(1, 3);
+        for _ in 0..nch { v.push(Step::Enter(s, rng.range(1, 3) as i32, rng.range(1, 2) as i32, if rng.chance(1, 8) { "abc".to_string() } else { lit(rng) })); }
+        v.push(Step::Eval);
+    }
+    v
+}
+
 fn main() {
     let a = Args::parse();
     let mut cs = Cases::new(&a.out, "c05");
@@ -60,95 +163,125 @@ fn main() {
     let mut oracle = Oracle::default();
     let nwb = if a.thorough { 10_000 } else { 400 };
     let mut dist: BTreeMap<String, u64> = BTreeMap::new();
-    let mut not_covered = 0u64; let mut covered = 0u64; let mut nontrivial = 0u64; let mut panics = 0u64; let mut ocases = 0u64;
+    let mut not_covered = 0u64; let mut covered = 0u64; let mut nontrivial = 0u64; let mut panics = 0u64; let mut ocases = 0u64; let mut evals = 0u64;
     let mut samples: Vec<String> = vec![];
+    let e = |s: u32, r: i32, c: i32, t: &str| Step::Enter(s, r, c, t.to_string());
     // the design-phase witnesses first, then generated workbooks
-    let corpus: Vec<Vec<gen::Input>> = vec![
-        vec![(0, 1, 1, "=IFERROR(B1,5)".into()), (0, 1, 2, "=A1+1".into())],
-        vec![(0, 1, 1, "=B1&\"x\"".into()), (0, 1, 2, "=C1".into())],
-        vec![(0, 1, 1, "=ISNUMBER(B1)".into()), (0, 1, 2, "=1E308*10".into())],
-        vec![(0, 1, 1, "=A1".into())],
-        vec![(0, 1, 1, "=B1+1".into()), (0, 1, 2, "=A1*2".into()), (0, 1, 3, "=SUM(A1:B1)".into()), (0, 1, 4, "=C1".into())],
-        vec![(0, 1, 1, "=IF(TRUE,,1)".into()), (0, 1, 2, "=ISBLANK(A1)".into()), (0, 2, 1, "=ISBLANK(B2)".into()), (0, 2, 2, "=IF(TRUE,,1)".into())],
+    let mut corpus: Vec<Vec<Step>> = vec![
+        simple(&[(0, 1, 1, "=IFERROR(B1,5)".into()), (0, 1, 2, "=A1+1".into())]),
+        simple(&[(0, 1, 1, "=B1&\"x\"".into()), (0, 1, 2, "=C1".into())]),
+        simple(&[(0, 1, 1, "=ISNUMBER(B1)".into()), (0, 1, 2, "=1E308*10".into())]),
+        simple(&[(0, 1, 1, "=A1".into())]),
+        simple(&[(0, 1, 1, "=B1+1".into()), (0, 1, 2, "=A1*2".into()), (0, 1, 3, "=SUM(A1:B1)".into()), (0, 1, 4, "=C1".into())]),
+        simple(&[(0, 1, 1, "=IF(TRUE,,1)".into()), (0, 1, 2, "=ISBLANK(A1)".into()), (0, 2, 1, "=ISBLANK(B2)".into()), (0, 2, 2, "=IF(TRUE,,1)".into())]),
+        // whole-column / whole-row sums over another sheet whose used area is larger than the formula sheet's
+        vec![e(1, 1, 1, "1"), e(1, 2, 1, "10"), e(1, 3, 1, "100"), e(0, 1, 1, "=SUM(Sheet2!A:A)"), e(0, 1, 2, "=COUNT(Sheet2!A:A)"), e(0, 1, 3, "=MAX(Sheet2!A:B)"), Step::Eval],
+        vec![e(1, 1, 1, "1"), e(1, 1, 2, "10"), e(1, 1, 3, "100"), e(0, 1, 1, "=SUM(Sheet2!1:1)"), e(0, 2, 1, "=AVERAGE(Sheet2!1:2)"), Step::Eval],
+        vec![e(0, 1, 1, "1"), e(0, 2, 1, "10"), e(0, 3, 1, "100"), e(0, 1, 4, "=SUM(A:A)"), e(0, 5, 4, "=SUM(1:1)"), e(1, 9, 9, "=SUM(Sheet1!A:B)"), Step::Eval],
+        // a CSE array evaluated once, a reader EARLIER in sheet order reading a non-anchor cell, an input changes
+        vec![e(0, 1, 1, "2"), e(0, 2, 1, "4"), Step::Cse(0, 5, 3, 1, 2, "=A1:A2*1".into()), e(0, 1, 3, "=C6"), e(0, 1, 4, "=SUM(C6:C6)"), e(0, 9, 1, "=C6"), Step::Eval,
+             e(0, 2, 1, "20"), Step::Eval],
+        vec![e(0, 1, 1, "2"), e(0, 2, 1, "4"), e(0, 5, 3, "=A1:A2*1"), e(0, 1, 3, "=C6"), e(0, 1, 4, "=SUM(C6:C6)"), e(0, 9, 1, "=C6"), Step::Eval,
+             e(0, 2, 1, "20"), Step::Eval, e(0, 1, 1, "abc"), Step::Eval],
     ];
-    for w in 0..(corpus.len() + nwb) {
-        let kind = if w < corpus.len() { 99 } else { (w - corpus.len()) % 6 };
-        let inputs: Vec<gen::Input> = if w < corpus.len() { corpus[w].clone() } else { gen::gen_workbook(&mut rng, kind) };
-        let kname = if kind == 99 { "corpus" } else { gen::KINDS[kind] };
+    let ncorpus = corpus.len();
+    for w in 0..(ncorpus + nwb) {
+        // kinds 0-5: the shared generator; 6: full ranges; 7: multi-step with arrays
+        let kind = if w < ncorpus { 99 } else { [0usize, 1, 2, 3, 4, 5, 7, 6, 7, 0, 2, 3, 7, 5, 4, 7][(w - ncorpus) % 16] };
+        let kind = if kind == 6 && !a.thorough && (w - ncorpus) % 32 != 7 && w > ncorpus + 200 { 7 } else { kind };
+        let steps: Vec<Step> = if w < ncorpus { std::mem::take(&mut corpus[w]) } else {
+            match kind { 6 => gen_fullrange(&mut rng), 7 => gen_multistep(&mut rng), k => simple(&gen::gen_workbook(&mut rng, k)) } };
+        let kname = match kind { 99 => "corpus", 6 => "full_column_row_ranges", 7 => "multistep_arrays", k => gen::KINDS[k] };
+        let inputs = steps_json(&steps);
+        // every evaluate of the script gives one correspondence case and one consistency case
         let r = std::panic::catch_unwind(std::panic::AssertUnwindSafe(|| {
             let mut m = Model::new_empty("m", "en", "UTC", "en").unwrap();
             m.new_sheet(); m.new_sheet();
-            let mut sorted = inputs.clone(); sorted.sort();
-            for (s, r, c, t) in &sorted { if m.set_user_input(*s, *r, *c, t.clone()).is_err() { return None; } }
-            let wb = dump::workbook(&m, false)?;
-            let order = dump::eval_order(&m);
-            let cells = dump::all_cells(&m);
-            m.evaluate();
-            let obs: Vec<String> = cells.iter().map(|&(s, r, c)| dump::cell_obs(&m, s, r, c)).collect();
-            let line = format!("ev {} {} {}", dump::cells_str(&order), dump::cells_str(&cells), wb);
-            let wbv = dump::workbook(&m, true)?;
-            Some((line, obs, wbv, m))
+            let mut out: Vec<(String, Vec<String>, String, Vec<String>, Vec<serde_json::Value>)> = vec![];
+            let mut fresh_cse: Vec<(u32, i32, i32, i32, i32)> = vec![];
+            for st in &steps {
+                match st {
+                    Step::Enter(s, r, c, t) => { if m.set_user_input(*s, *r, *c, t.clone()).is_err() { return None; } }
+                    Step::Cse(s, r, c, w, h, t) => { if m.set_user_array_formula(*s, *r, *c, *w, *h, t).is_err() { return None; } fresh_cse.push((*s, *r, *c, *w, *h)); }
+                    Step::Eval => {
+                        let wb = dump::workbook(&m, true)?;
+                        let order = dump::eval_order(&m);
+                        m.evaluate();
+                        let cells = dump::all_cells(&m);
+                        let obs: Vec<String> = cells.iter().map(|&(s, r, c)| dump::cell_obs(&m, s, r, c)).collect();
+                        let line = format!("ev {} {} {}", dump::cells_str(&order), dump::cells_str(&cells), wb);
+                        let wbv = dump::workbook(&m, true)?;
+                        // dependency graph of the formula cells (syntactic)
+                        let mut deps: HashMap<C, Vec<C>> = HashMap::new();
+                        let mut absorbs: HashMap<C, bool> = HashMap::new();
+                        for &(s, r, c) in &cells {
+                            if let Some(f) = m.workbook.worksheets[s as usize].sheet_data[&r][&c].get_formula() {
+                                let (node, _) = &m.parsed_formulas[s as usize][f as usize];
+                                let mut v = vec![]; let mut ab = false; node_refs(node, r, c, &mut v, &mut ab);
+                                deps.insert((s, r, c), v); absorbs.insert((s, r, c), ab);
+                            }
+                        }
+                        let reach = |from: C| -> BTreeSet<C> {
+                            let mut seen = BTreeSet::new(); let mut todo: Vec<C> = deps.get(&from).cloned().unwrap_or_default();
+                            while let Some(x) = todo.pop() { if seen.insert(x) { if let Some(d) = deps.get(&x) { todo.extend(d.iter().copied()); } } }
+                            seen
+                        };
+                        let fcells: Vec<C> = cells.iter().copied().filter(|c| deps.contains_key(c)).collect();
+                        let on_cycle: BTreeSet<C> = fcells.iter().copied().filter(|c| reach(*c).contains(c)).collect();
+                        let shows = |c: &C| dump::cell_obs(&m, c.0, c.1, c.2);
+                        let mut hints = vec![]; let mut fails = vec![];
+                        for c in &fcells {
+                            let rc = reach(*c);
+                            let cyc = on_cycle.contains(c) || rc.iter().any(|d| on_cycle.contains(d));
+                            let direct = &deps[c];
+                            let rz = direct.iter().any(|d| deps.contains_key(d) && shows(d) == "n0000000000000000");
+                            let rn = direct.iter().any(|d| deps.contains_key(d) && shows(d) == "x5");
+                            // reads a non-anchor cell of a CSE area entered since the previous evaluate: on that first
+                            // evaluate the cell still was the "" placeholder of set_user_array_formula when it was read
+                            let pl = direct.iter().any(|d| fresh_cse.iter().any(|&(s, r, c, w, h)| d.0 == s && d.1 >= r && d.1 < r + h && d.2 >= c && d.2 < c + w && (d.1, d.2) != (r, c)));
+                            hints.push(format!("{},{},{}:{}{}{}{}", c.0, c.1, c.2, cyc as u8, rz as u8, rn as u8, pl as u8));
+                            let v = shows(c);
+                            if v == "x10" && !on_cycle.contains(c) && !direct.iter().any(|d| shows(d) == "x10") {
+                                let class = if rc.iter().any(|d| on_cycle.contains(d)) { "circ_read_from_absorbed_cycle" } else { "circ_without_cycle" };
+                                fails.push(json!([class, c, format!("cell {:?} shows #CIRC! but is not on a cycle and reads no cell showing #CIRC!", c), v]));
+                            }
+                            if on_cycle.contains(c) && v != "x10" {
+                                let cyc_cells: Vec<C> = on_cycle.iter().copied().filter(|d| reach(*d).contains(c) && rc.contains(d) || d == c).collect();
+                                let absorbed = cyc_cells.iter().any(|d| absorbs[d]);
+                                let class = if v.starts_with('x') { "cycle_other_error_first" } else if absorbed { "absorbed_cycle" } else { "cycle_without_circ" };
+                                fails.push(json!([class, c, format!("cell {:?} is on a dependency cycle but shows {}", c, v), v]));
+                            }
+                        }
+                        let cons = format!("cons {} {}", dump::cells_str(&fcells), wbv);
+                        out.push((line, obs, cons, hints, fails));
+                        fresh_cse.clear();
+                    }
+                }
+            }
+            Some(out)
         }));
         match r {
             Err(_) => { panics += 1; }
             Ok(None) => { not_covered += 1; }
-            Ok(Some((line, obs, wbv, m))) => {
+            Ok(Some(out)) => {
                 covered += 1; *dist.entry(kname.to_string()).or_insert(0) += 1;
-                if obs.iter().any(|o| !o.starts_with('x') && !o.starts_with('e')) { nontrivial += 1; }
-                cs.case(&line, &obs.join(" "));
-                if samples.len() < 10 && w % 41 == 0 { samples.push(format!("{} {:?}", kname, inputs.iter().take(6).collect::<Vec<_>>())); }
-                // dependency graph of the formula cells
-                let cells = dump::all_cells(&m);
-                let mut deps: HashMap<C, Vec<C>> = HashMap::new();
-                let mut absorbs: HashMap<C, bool> = HashMap::new();
-                for &(s, r, c) in &cells {
-                    if let Some(f) = m.workbook.worksheets[s as usize].sheet_data[&r][&c].get_formula() {
-                        let (node, _) = &m.parsed_formulas[s as usize][f as usize];
-                        let mut v = vec![]; let mut ab = false; node_refs(node, r, c, &mut v, &mut ab);
-                        deps.insert((s, r, c), v); absorbs.insert((s, r, c), ab);
-                    }
+                if out.iter().any(|(_, obs, ..)| obs.iter().any(|o| !o.starts_with('x') && !o.starts_with('e'))) { nontrivial += 1; }
+                if samples.len() < 12 && (w % 37 == 0 || (kind >= 6 && kind != 99 && samples.len() < 4)) { samples.push(format!("{} {}", kname, serde_json::to_string(&inputs).unwrap().chars().take(400).collect::<String>())); }
+                for (line, obs, cons, hints, fails) in out {
+                    evals += 1;
+                    cs.case(&line, &obs.join(" "));
+                    oracle.checked += hints.len() as u64;
+                    for f in fails { oracle.fail(f[0].as_str().unwrap(), json!({"inputs": inputs, "cell": f[1], "shows": f[3]}), f[2].as_str().unwrap().to_string()); }
+                    writeln!(fo, "{}", cons).unwrap();
+                    writeln!(fh, "{}\t{}", hints.join(" "), serde_json::to_string(&inputs).unwrap()).unwrap();
+                    ocases += 1;
                 }
-                let reach = |from: C| -> BTreeSet<C> {
-                    let mut seen = BTreeSet::new(); let mut todo: Vec<C> = deps.get(&from).cloned().unwrap_or_default();
-                    while let Some(x) = todo.pop() { if seen.insert(x) { if let Some(d) = deps.get(&x) { todo.extend(d.iter().copied()); } } }
-                    seen
-                };
-                let fcells: Vec<C> = cells.iter().copied().filter(|c| deps.contains_key(c)).collect();
-                let on_cycle: BTreeSet<C> = fcells.iter().copied().filter(|c| reach(*c).contains(c)).collect();
-                let shows = |c: &C| dump::cell_obs(&m, c.0, c.1, c.2);
-                let mut hints = vec![];
-                for c in &fcells {
-                    let rc = reach(*c);
-                    let cyc = on_cycle.contains(c) || rc.iter().any(|d| on_cycle.contains(d));
-                    let direct = &deps[c];
-                    let rz = direct.iter().any(|d| deps.contains_key(d) && shows(d) == "n0000000000000000");
-                    let rn = direct.iter().any(|d| deps.contains_key(d) && shows(d) == "x5");
-                    hints.push(format!("{},{},{}:{}{}{}", c.0, c.1, c.2, cyc as u8, rz as u8, rn as u8));
-                    // (iii) #CIRC! only on a cycle or when reading a cell that shows it
-                    oracle.checked += 1;
-                    let v = shows(c);
-                    if v == "x10" && !on_cycle.contains(c) && !direct.iter().any(|d| shows(d) == "x10") {
-                        // the raw-vs-stored effect can also hide the #CIRC! a precedent returned
-                        let class = if rc.iter().any(|d| on_cycle.contains(d)) { "circ_read_from_absorbed_cycle" } else { "circ_without_cycle" };
-                        oracle.fail(class, json!({"inputs": inputs, "cell": c}), format!("cell {:?} shows #CIRC! but is not on a cycle and reads no cell showing #CIRC!", c));
-                    }
-                    if on_cycle.contains(c) && v != "x10" {
-                        let cyc_cells: Vec<C> = on_cycle.iter().copied().filter(|d| reach(*d).contains(c) && rc.contains(d) || d == c).collect();
-                        let absorbed = cyc_cells.iter().any(|d| absorbs[d]);
-                        let class = if v.starts_with('x') { "cycle_other_error_first" } else if absorbed { "absorbed_cycle" } else { "cycle_without_circ" };
-                        oracle.fail(class, json!({"inputs": inputs, "cell": c, "shows": v}), format!("cell {:?} is on a dependency cycle but shows {}", c, v));
-                    }
-                }
-                // (ii) the consistency predicate on the implementation's values
-                writeln!(fo, "cons {} {}", dump::cells_str(&fcells), wbv).unwrap();
-                writeln!(fh, "{}\t{}", hints.join(" "), serde_json::to_string(&inputs).unwrap()).unwrap();
-                ocases += 1;
             }
         }
     }
     fo.flush().unwrap(); fh.flush().unwrap();
     cs.finish(json!({
-        "workbooks": covered, "not_covered_outside_core_language": not_covered, "panics": panics,
+        "workbooks": covered, "evaluations": evals, "not_covered_outside_core_language": not_covered, "panics": panics,
         "distribution": dist, "distinct_nontrivial": nontrivial, "samples": samples, "consistency_cases": ocases,
         "oracle_checked": oracle.checked, "oracle_failures": oracle.failures, "oracle_failures_per_class": oracle.per_class,
     }));
